@@ -40,6 +40,19 @@ def generate(seed, tier, index):
         head = [['act', 0, 'shm', k % 4, 0, rng.randrange(1 << 30)] for k in range(rng.randint(4, 7))]
         sc['intents'][0:0] = head
         sc['intents'] += [['cmd', rng.choice(['list (argb8888)', 'list (xrgb8888)', 'list wl_shm.format(argb8888)', 'list (format=xrgb8888)']), {'t': 'other'}]]
+    if rng.random() < 0.15:
+        # two accumulated patterns that print alike without colour but not with it: a wildcard `*` is painted, a quoted "*" is not
+        st0 = L.build_stream(sc, rig.REPO)
+        argnames = sorted({a.name for c in st0.world.conns for m_ in c.msgs for a in m_.args if a.name})
+        if argnames:
+            n_ = rng.choice(argnames)
+            pair = [['cmd', 'filter (%s=*)' % n_, {'t': 'other'}], ['cmd', 'filter (%s="*")' % n_, {'t': 'other'}]]
+            if rng.random() < 0.5:
+                pair.reverse()
+            pos = rng.randint(0, len(sc['intents']))
+            sc['intents'][pos:pos] = pair
+            sc['intents'] += [['cmd', 'filter', {'t': 'other'}], ['cmd', 'list', {'t': 'other'}]]
+            sc['config']['star_collision'] = True
     sc['config']['suppress'] = rng.random() < 0.2
     sc['config']['colour_first'] = rng.random() < 0.5
     if rng.random() < 0.15:
